@@ -7,6 +7,20 @@ import NngModel.Spec.Pipeline
 namespace Nng.Pull
 open Nng Nng.Proto Nng.PipelineSpec
 
+/-- the judge without the receive-liveness clause: `pullStep` = `pullStepOld` followed by the
+    bookkeeping of connected pipes (`trackLive`) and the clause `pullLive`.  The simulation `R`
+    below is carried out for `pullStepOld`; the section "receive liveness" at the end adds the rest. -/
+def pullStepOld (j : PullJ) (ev : Ev) (outs : List Out) : PullJ :=
+  if j.err.isSome then j else
+  if notExecuted outs then j else
+  match ev with
+  | .send .. => j
+  | _ =>
+  let (j, nb) := pullPre j ev outs
+  let j := (outs.filter isDone).foldl (pullOut nb) j
+  let j := (outs.filter (fun o => !isDone o)).foldl (pullOut nb) j
+  pullPost nb outs j
+
 /-- the trace (event, outputs) the model produces from state `s` -/
 def traceOf (s : State) : List Ev → List (Ev × List Out)
   | [] => []
@@ -95,15 +109,15 @@ def isSend : Ev → Bool | .send .. => true | _ => false
 
 theorem pullStep_eq {j : PullJ} {ev : Ev} {outs : List Out} (herr : j.err = none)
     (hne : notExecuted outs = false) (hns : isSend ev = false) :
-    pullStep j ev outs =
+    pullStepOld j ev outs =
       pullPost (pullPre j ev outs).2 outs (procOuts (pullPre j ev outs).2 outs (pullPre j ev outs).1) := by
-  unfold pullStep procOuts
+  unfold pullStepOld procOuts
   simp only [herr, hne]
   cases ev <;> first | (simp [isSend] at hns; done) | rfl
 
 theorem pullStep_refused {j : PullJ} {ev : Ev} {outs : List Out} (hne : notExecuted outs = true) :
-    pullStep j ev outs = j := by
-  unfold pullStep; simp [hne]
+    pullStepOld j ev outs = j := by
+  unfold pullStepOld; simp [hne]
 
 theorem R_frame {s s' : State} {j : PullJ} (h1 : s'.rq = s.rq) (h2 : s'.pl = s.pl) (h3 : s'.pipes = s.pipes)
     (hR : R s j) : R s' j := by
@@ -119,7 +133,7 @@ theorem R_frame {s s' : State} {j : PullJ} (h1 : s'.rq = s.rq) (h2 : s'.pl = s.p
 theorem step_plain {s : State} {j : PullJ} {ev : Ev} {outs : List Out} (hI : Inv s) (hR : R s j)
     (hne : notExecuted outs = false) (hns : isSend ev = false)
     (hpre : pullPre j ev outs = (j, none)) (hproc : procOuts none outs j = j)
-    (hb : outs.any isBlocked = false) : pullStep j ev outs = j := by
+    (hb : outs.any isBlocked = false) : pullStepOld j ev outs = j := by
   rw [pullStep_eq hR.err hne hns, hpre]
   simp only [hproc]
   exact pullPost_none hb (R_quiet hI hR)
@@ -245,7 +259,7 @@ theorem finish {s' : State} {j' : PullJ} {nb : Option Nat} {outs : List Out} (hI
 /-! ### events -/
 
 theorem evPipeDrop_R {s : State} {j : PullJ} (hI : Inv s) (hR : R s j) (p : Nat) :
-    R (evPipeDrop s p).1 (pullStep j (.pipeDrop p) (evPipeDrop s p).2) := by
+    R (evPipeDrop s p).1 (pullStepOld j (.pipeDrop p) (evPipeDrop s p).2) := by
   have hI' := evPipeDrop_inv hI p
   unfold evPipeDrop at hI' ⊢
   split
@@ -296,7 +310,7 @@ theorem addPipe_R {s : State} {j : PullJ} (hI : Inv s) (hR : R s j) (n : Pipe) (
   · exact f
 
 theorem evPipeAdd_R {s : State} {j : PullJ} (hI : Inv s) (hR : R s j) (peer : Nat) :
-    R (evPipeAdd s peer).1 (pullStep j (.pipeAdd peer) (evPipeAdd s peer).2) := by
+    R (evPipeAdd s peer).1 (pullStepOld j (.pipeAdd peer) (evPipeAdd s peer).2) := by
   have hI' := evPipeAdd_inv hI peer
   have hnarm : s.pipes.length ∉ j.armed := by
     intro h; obtain ⟨pp, h1, _⟩ := (hR.armed _).1 h; have := getP_lt hI.ids h1; omega
@@ -376,7 +390,7 @@ theorem failEach_outs (rv : Nat) (l : List Nat) :
 /-- cancel / abort / timer expiry: a batch of failed completions -/
 theorem failBatch_R {s : State} {j : PullJ} {ev : Ev} (hR : R s j) (rv : Nat) (hrv : rv ≠ 0) (l : List Nat)
     (hI' : Inv (failEach s rv l).1) (hns : isSend ev = false) (hpre : pullPre j ev (failEach s rv l).2 = (j, none)) :
-    R (failEach s rv l).1 (pullStep j ev (failEach s rv l).2) := by
+    R (failEach s rv l).1 (pullStepOld j ev (failEach s rv l).2) := by
   have ho := failEach_outs rv l s
   rw [pullStep_eq hR.err (tame_all (fun o h => (ho o h).1)).1 hns, hpre]
   refine finish hI' ?_ (tame_all (fun o h => (ho o h).1)).2 (Or.inl rfl)
@@ -394,8 +408,8 @@ theorem closePipe_outs_open {s : State} {p : Nat} {pp : Pipe} (hget : getP s.pip
   unfold closePipe getPipe; simp [hget, hopen]
 
 theorem evRecvDone_R {s : State} {j : PullJ} (hI : Inv s) (hR : R s j) (p : Nat) (r : Except Nat Bytes) :
-    R (evRecvDone s p r).1 (pullStep j (.recvDone p r) (evRecvDone s p r).2) := by
-  have hplain : ∀ r, pullStep j (.recvDone p r) [Out.rv (-1)] = j := by
+    R (evRecvDone s p r).1 (pullStepOld j (.recvDone p r) (evRecvDone s p r).2) := by
+  have hplain : ∀ r, pullStepOld j (.recvDone p r) [Out.rv (-1)] = j := by
     intro r
     refine step_plain hI hR (by simp [notExecuted]) rfl ?_ rfl (by simp [isBlocked])
     cases r <;> simp [pullPre]
@@ -416,7 +430,7 @@ theorem evRecvDone_R {s : State} {j : PullJ} (hI : Inv s) (hR : R s j) (p : Nat)
         have hR' := closePipe_R hR none p
         have hI' := closePipe_inv hI p
         have hco := closePipe_outs_open hget hok.1
-        show R (closePipe s p).1 (pullStep j _ ([Out.rv 0] ++ (closePipe s p).2))
+        show R (closePipe s p).1 (pullStepOld j _ ([Out.rv 0] ++ (closePipe s p).2))
         rw [hco] at hR' ⊢
         rw [pullStep_eq hR.err (by simp [notExecuted]) rfl]
         refine finish hI' ?_ (by simp [isBlocked]) (Or.inl (by simp [pullPre]))
@@ -491,7 +505,7 @@ theorem filter_ne_self {l : List Nat} {a : Nat} (h : a ∉ l) : l.filter (· != 
   rw [List.filter_eq_self]; intro x hx; simp; intro hxa; exact h (hxa ▸ hx)
 
 theorem evRecv_R {s : State} {j : PullJ} (hI : Inv s) (hR : R s j) (c : Option Nat) (a : Nat) (mode : Mode) :
-    R (evRecv s a mode).1 (pullStep j (.recv c a mode) (evRecv s a mode).2) := by
+    R (evRecv s a mode).1 (pullStepOld j (.recv c a mode) (evRecv s a mode).2) := by
   unfold evRecv getPipe
   split
   · rw [pullStep_refused (by simp [notExecuted])]; exact hR
@@ -587,9 +601,9 @@ theorem evRecv_R {s : State} {j : PullJ} (hI : Inv s) (hR : R s j) (c : Option N
               (Or.inl (by simp))]
             rw [pullOut_parm none _ p (by exact hnarm) (by exact hnh)]
             simpa [hw0] using hfinal
-        · show R s (pullStep j _ [Out.other "model-invariant-broken"])
+        · show R s (pullStepOld j _ [Out.other "model-invariant-broken"])
           rw [pullStep_refused (by simp [notExecuted])]; exact hR
-      · show R s (pullStep j _ [Out.other "model-invariant-broken"])
+      · show R s (pullStepOld j _ [Out.other "model-invariant-broken"])
         rw [pullStep_refused (by simp [notExecuted])]; exact hR
 
 
@@ -624,7 +638,7 @@ theorem closeDones_R (nb : Option Nat) (l : List Parked) : ∀ {s : State} {j : 
     · exact (List.nodup_cons.1 f).2
 
 theorem evClose_R {s : State} {j : PullJ} (hI : Inv s) (hR : R s j) :
-    R (evClose s).1 (pullStep j .close (evClose s).2) := by
+    R (evClose s).1 (pullStepOld j .close (evClose s).2) := by
   have hI' := evClose_inv hI
   have hd : ∀ o ∈ (s.rq.map fun pk => Out.done pk.aio Err.eclosed none false), isDone o = true ∧ tame o = true := by
     intro o ho; obtain ⟨x, _, rfl⟩ := List.mem_map.1 ho; exact ⟨rfl, rfl⟩
@@ -650,9 +664,9 @@ theorem failEach_one (s : State) (a rv : Nat) : failEach s rv [a] = failParked s
   simp [failEach]
 
 theorem stepLive_R {s : State} {j : PullJ} (hI : Inv s) (hR : R s j) (ev : Ev) (ha : isAbort0 ev = false) :
-    R (stepLive s ev).1 (pullStep j ev (stepLive s ev).2) := by
+    R (stepLive s ev).1 (pullStepOld j ev (stepLive s ev).2) := by
   have plain : ∀ (ev : Ev) (o : Out), isSend ev = false → (∀ outs, pullPre j ev outs = (j, none)) →
-      tame o = true → isDone o = false → (∀ nb j, pullOut nb j o = j) → R s (pullStep j ev [o]) := by
+      tame o = true → isDone o = false → (∀ nb j, pullOut nb j o = j) → R s (pullStepOld j ev [o]) := by
     intro ev o h1 h2 h3 h4 h5
     have ht := tame_all (outs := [o]) (by simpa using h3)
     rw [step_plain hI hR ht.1 h1 (h2 _) (by simp [procOuts, List.filter, h4, h5]) ht.2]; exact hR
@@ -662,7 +676,7 @@ theorem stepLive_R {s : State} {j : PullJ} (hI : Inv s) (hR : R s j) (ev : Ev) (
   case pipeDrop p => exact evPipeDrop_R hI hR p
   case sendDone p rv => exact plain _ _ rfl (fun _ => rfl) rfl rfl (fun _ _ => rfl)
   case recvDone p r => exact evRecvDone_R hI hR p r
-  case send c a m mode => simp [pullStep]; unfold evSend; split <;> exact hR
+  case send c a m mode => simp [pullStepOld]; unfold evSend; split <;> exact hR
   case recv c a mode => exact evRecv_R hI hR c a mode
   case cancel a =>
     rw [← failEach_one]
@@ -684,7 +698,7 @@ theorem stepLive_R {s : State} {j : PullJ} (hI : Inv s) (hR : R s j) (ev : Ev) (
   case close => exact evClose_R hI hR
 
 theorem stepIdle_R {s : State} {j : PullJ} (hI : Inv s) (hR : R s j) (ev : Ev) :
-    R (stepIdle s ev).1 (pullStep j ev (stepIdle s ev).2) := by
+    R (stepIdle s ev).1 (pullStepOld j ev (stepIdle s ev).2) := by
   cases ev <;> simp only [stepIdle] <;>
     first
     | (rw [pullStep_refused (by simp [notExecuted])]; exact hR)
@@ -693,8 +707,8 @@ theorem stepIdle_R {s : State} {j : PullJ} (hI : Inv s) (hR : R s j) (ev : Ev) :
     rw [step_plain hI hR (by simp [notExecuted]) rfl rfl (by simp [procOuts]) (by simp)]
     exact R_frame (s := s) rfl rfl rfl hR
 
-theorem step_R {s : State} {j : PullJ} (hI : Inv s) (hR : R s j) (ev : Ev) (ha : isAbort0 ev = false) :
-    R (step s ev).1 (pullStep j ev (step s ev).2) := by
+theorem step_R_old {s : State} {j : PullJ} (hI : Inv s) (hR : R s j) (ev : Ev) (ha : isAbort0 ev = false) :
+    R (step s ev).1 (pullStepOld j ev (step s ev).2) := by
   unfold step
   split
   · split
@@ -706,14 +720,435 @@ theorem step_R {s : State} {j : PullJ} (hI : Inv s) (hR : R s j) (ev : Ev) (ha :
     · exact stepIdle_R hI hR _
     · exact stepLive_R hI hR _ ha
 
+
+/-! ### receive liveness -/
+
+/-- pipe `p` is connected and not closed -/
+def openP (ps : List Pipe) (p : Nat) : Prop := ∃ pp, getP ps p = some pp ∧ pp.closed = false
+
+/-- the step from `s` to `s'` with outputs `outs` reports every connection and every close -/
+def Track (s s' : State) (outs : List Out) : Prop :=
+  ∀ p, openP s'.pipes p ↔ ((openP s.pipes p ∨ p ∈ newPipes outs) ∧ Out.pclosed p ∉ outs)
+
+/-- outputs that say nothing about connections -/
+def quietOut : Out → Bool
+  | .pipe _ => false
+  | .pclosed _ => false
+  | _ => true
+
+theorem quiet_newPipes {outs : List Out} (h : ∀ o ∈ outs, quietOut o = true) : newPipes outs = [] := by
+  unfold newPipes
+  rw [List.filterMap_eq_nil_iff]
+  intro o ho; have := h o ho; cases o <;> simp_all [quietOut]
+
+theorem quiet_noClosed {outs : List Out} (h : ∀ o ∈ outs, quietOut o = true) (p : Nat) :
+    Out.pclosed p ∉ outs := by
+  intro hm; have := h _ hm; simp [quietOut] at this
+
+theorem newPipes_append (a b : List Out) : newPipes (a ++ b) = newPipes a ++ newPipes b := by
+  simp [newPipes, List.filterMap_append]
+
+theorem track_quiet {s s' : State} {outs : List Out} (hp : s'.pipes = s.pipes)
+    (h : ∀ o ∈ outs, quietOut o = true) : Track s s' outs := by
+  intro p; rw [hp, quiet_newPipes h]
+  simp [quiet_noClosed h p]
+
+theorem track_pre {s s' : State} {pre outs : List Out} (h : ∀ o ∈ pre, quietOut o = true)
+    (ht : Track s s' outs) : Track s s' (pre ++ outs) := by
+  intro p; rw [ht p, newPipes_append, quiet_newPipes h]
+  have := quiet_noClosed h p
+  simp [this]
+
+/-- two steps in a row, the second of which connects nobody -/
+theorem track_seq {s s1 s2 : State} {o1 o2 : List Out} (h1 : Track s s1 o1) (h2 : Track s1 s2 o2)
+    (hn : newPipes o2 = []) : Track s s2 (o1 ++ o2) := by
+  intro p; rw [h2 p, h1 p, newPipes_append, hn]
+  simp only [List.append_nil, List.mem_append, List.not_mem_nil, or_false, not_or]
+  constructor
+  · rintro ⟨⟨a, b⟩, c⟩; exact ⟨a, b, c⟩
+  · rintro ⟨a, b, c⟩; exact ⟨⟨a, b⟩, c⟩
+
+theorem openP_setP {ps : List Pipe} {pp' : Pipe} (p : Nat) :
+    openP (setP ps pp') p ↔ if p = pp'.id then ((getP ps p).isSome ∧ pp'.closed = false) else openP ps p := by
+  unfold openP; rw [getP_setP]
+  by_cases h : p = pp'.id
+  · simp only [h, if_true]
+    cases hg : getP ps pp'.id <;> simp
+  · simp [h]
+
+theorem closePipe_track (s : State) (p : Nat) : Track s (closePipe s p).1 (closePipe s p).2 := by
+  unfold closePipe getPipe
+  split
+  · exact track_quiet rfl (by simp)
+  · rename_i pp hget
+    split
+    · exact track_quiet rfl (by simp)
+    · rename_i hopen
+      have hid := (getP_some hget).2
+      intro q
+      simp only [newPipes, List.filterMap_cons, List.filterMap_nil, List.not_mem_nil, or_false,
+        List.mem_cons, Out.pclosed.injEq]
+      rw [openP_setP]
+      simp only [hid]
+      by_cases hq : q = p
+      · subst hq; simp
+      · simp [hq]
+
+theorem closePipe_newPipes (s : State) (p : Nat) : newPipes (closePipe s p).2 = [] := by
+  unfold closePipe; split
+  · rfl
+  · split <;> rfl
+
+theorem closeAll_newPipes (l : List Nat) : ∀ s : State, newPipes (closeAll s l).2 = [] := by
+  induction l with
+  | nil => intro s; rfl
+  | cons a l ih => intro s; simp only [closeAll, newPipes_append, closePipe_newPipes, ih, List.append_nil]
+
+theorem closeAll_track (l : List Nat) : ∀ s : State, Track s (closeAll s l).1 (closeAll s l).2 := by
+  induction l with
+  | nil => intro s; exact track_quiet rfl (by simp [closeAll])
+  | cons a l ih =>
+    intro s; simp only [closeAll]
+    exact track_seq (closePipe_track s a) (ih _) (closeAll_newPipes l _)
+
+theorem failParked_pipes (s : State) (a rv : Nat) : (failParked s a rv).1.pipes = s.pipes := by
+  unfold failParked; split <;> rfl
+
+theorem failParked_quiet (s : State) (a rv : Nat) : ∀ o ∈ (failParked s a rv).2, quietOut o = true := by
+  unfold failParked; split <;> simp [quietOut]
+
+theorem failEach_pipes (rv : Nat) (l : List Nat) : ∀ s : State, (failEach s rv l).1.pipes = s.pipes := by
+  induction l with
+  | nil => intro s; rfl
+  | cons a l ih => intro s; simp only [failEach]; rw [ih, failParked_pipes]
+
+theorem failEach_quiet (rv : Nat) (l : List Nat) : ∀ s : State, ∀ o ∈ (failEach s rv l).2, quietOut o = true := by
+  induction l with
+  | nil => intro s o ho; simp [failEach] at ho
+  | cons a l ih =>
+    intro s o ho
+    simp only [failEach, List.mem_append] at ho
+    rcases ho with ho | ho
+    · exact failParked_quiet s a rv o ho
+    · exact ih _ o ho
+
+theorem openP_lt {ps : List Pipe} (hids : ps.map (·.id) = List.range ps.length) {p : Nat}
+    (h : openP ps p) : p < ps.length := by
+  obtain ⟨pp, hg, _⟩ := h; exact getP_lt hids hg
+
+theorem evPipeAdd_track {s : State} (hI : Inv s) (peer : Nat) :
+    Track s (evPipeAdd s peer).1 (evPipeAdd s peer).2 := by
+  have hnone : getP s.pipes s.pipes.length = none := by
+    cases hg : getP s.pipes s.pipes.length with
+    | none => rfl
+    | some pp => exact absurd (getP_lt hI.ids hg) (Nat.lt_irrefl _)
+  unfold evPipeAdd
+  simp only []
+  split
+  · intro p
+    simp only [newPipes, List.filterMap_cons, List.filterMap_nil, Int.natCast_nonneg, ge_iff_le, if_true,
+      Int.toNat_natCast, List.mem_cons, List.not_mem_nil, or_false, Out.pclosed.injEq, reduceCtorEq, false_or]
+    unfold openP; rw [getP_append]
+    by_cases hp : p = s.pipes.length
+    · subst hp; simp [hnone]
+    · have : ¬ s.pipes.length = p := fun h => hp h.symm
+      simp [hp, this]
+  · intro p
+    simp only [newPipes, List.filterMap_cons, List.filterMap_nil, Int.natCast_nonneg, ge_iff_le, if_true,
+      Int.toNat_natCast, List.mem_cons, List.not_mem_nil, or_false, reduceCtorEq, not_false_eq_true, and_true]
+    unfold openP; rw [getP_append]
+    by_cases hp : p = s.pipes.length
+    · subst hp; simp [hnone]
+    · have : ¬ s.pipes.length = p := fun h => hp h.symm
+      simp [hp, this]
+
+/-- a pipe-table update that leaves every `closed` flag alone -/
+theorem track_setP {s s' : State} {outs : List Out} {p : Nat} {pp pp' : Pipe} (hget : getP s.pipes p = some pp)
+    (hp : s'.pipes = setP s.pipes pp') (hid : pp'.id = pp.id) (hc : pp'.closed = pp.closed)
+    (h : ∀ o ∈ outs, quietOut o = true) : Track s s' outs := by
+  have hpid := (getP_some hget).2
+  intro q; rw [hp, quiet_newPipes h, openP_setP]
+  have := quiet_noClosed h q
+  simp only [List.not_mem_nil, or_false, this, not_false_eq_true, and_true]
+  by_cases hq : q = pp'.id
+  · simp only [hq, if_true]
+    have hq' : pp'.id = p := by omega
+    unfold openP; rw [hq', hget]; simp [hc]
+  · simp [hq]
+
+theorem stepLive_track {s : State} (hI : Inv s) (ev : Ev) : Track s (stepLive s ev).1 (stepLive s ev).2 := by
+  cases ev <;> simp only [stepLive]
+  case openSock p r => exact track_quiet rfl (by simp [quietOut])
+  case pipeAdd peer => exact evPipeAdd_track hI peer
+  case pipeDrop p =>
+    unfold evPipeDrop; split
+    · split
+      · exact track_quiet rfl (by simp [quietOut])
+      · exact track_pre (by simp [quietOut]) (closePipe_track s p)
+    · exact track_quiet rfl (by simp [quietOut])
+  case sendDone p rv => exact track_quiet rfl (by simp [quietOut])
+  case recvDone p r =>
+    unfold evRecvDone getPipe; split
+    · rename_i pp hget
+      split
+      · exact track_quiet rfl (by simp [quietOut])
+      · split
+        · exact track_pre (by simp [quietOut]) (closePipe_track s p)
+        · split
+          · exact track_setP hget rfl rfl rfl (by simp [quietOut])
+          · exact track_quiet rfl (by simp [quietOut])
+    · exact track_quiet rfl (by simp [quietOut])
+  case send c a m mode => unfold evSend; split <;> exact track_quiet rfl (by simp [quietOut])
+  case recv c a mode =>
+    unfold evRecv getPipe; split
+    · exact track_quiet rfl (by simp [quietOut])
+    · split
+      · split <;> exact track_quiet rfl (by simp [quietOut])
+      · split
+        · rename_i pp hget
+          split
+          · exact track_setP hget rfl rfl rfl (by simp [quietOut])
+          · exact track_quiet rfl (by simp [quietOut])
+        · exact track_quiet rfl (by simp [quietOut])
+  case cancel a => exact track_quiet (failParked_pipes s a _) (failParked_quiet s a _)
+  case abort a rv => exact track_quiet (failParked_pipes s a _) (failParked_quiet s a _)
+  case advance ms => exact track_quiet (failEach_pipes _ _ _) (failEach_quiet _ _ _)
+  case ctxOpen c => exact track_quiet rfl (by simp [quietOut])
+  case ctxClose c => exact track_quiet rfl (by simp [quietOut])
+  case setopt c n t v => exact track_quiet rfl (by simp [quietOut])
+  case getopt c n t => exact track_quiet rfl (by simp [quietOut])
+  case poll => exact track_quiet rfl (by simp [quietOut])
+  case sub c t => exact track_quiet rfl (by simp [quietOut])
+  case unsub c t => exact track_quiet rfl (by simp [quietOut])
+  case close =>
+    unfold evClose
+    have h1 := closeAll_track (s.pipes.map (·.id)) { s with rq := [] }
+    have h2 : Track s { (closeAll { s with rq := [] } (s.pipes.map (·.id))).1 with closed := true }
+        (closeAll { s with rq := [] } (s.pipes.map (·.id))).2 := h1
+    exact track_pre (by intro o ho; simp at ho; obtain ⟨pk, _, rfl⟩ := ho; rfl) h2
+
+theorem step_track {s : State} (hI : Inv s) (ev : Ev) : Track s (step s ev).1 (step s ev).2 := by
+  have idle : ∀ ev, Track s (stepIdle s ev).1 (stepIdle s ev).2 := by
+    intro ev; cases ev <;> simp only [stepIdle] <;> exact track_quiet rfl (by simp [quietOut])
+  unfold step
+  split
+  · split
+    · exact track_quiet rfl (by simp [quietOut])
+    · exact idle _
+  · split
+    · exact idle _
+    · exact stepLive_track hI _
+
+/-! the old judge step never touches the list of connected pipes -/
+
+theorem fail_live (j : PullJ) (msg : String) : (j.fail msg).live = j.live := by
+  unfold PullJ.fail; split <;> rfl
+
+theorem pullOut_live (nb : Option Nat) (j : PullJ) (o : Out) : (pullOut nb j o).live = j.live := by
+  cases o <;> simp only [pullOut] <;> (repeat' split) <;> simp [fail_live]
+
+theorem foldl_live (nb : Option Nat) (l : List Out) : ∀ j : PullJ, (l.foldl (pullOut nb) j).live = j.live := by
+  induction l with
+  | nil => intro j; rfl
+  | cons o l ih => intro j; rw [List.foldl_cons, ih, pullOut_live]
+
+theorem pullPre_live (j : PullJ) (ev : Ev) (outs : List Out) : (pullPre j ev outs).1.live = j.live := by
+  cases ev <;> simp only [pullPre] <;> (repeat' split) <;> simp [fail_live]
+
+theorem ite_fail_live (c : Prop) [Decidable c] (j : PullJ) (msg : String) :
+    (if c then j.fail msg else j).live = j.live := by
+  split
+  · exact fail_live j msg
+  · rfl
+
+theorem pullPost_live (nb : Option Nat) (outs : List Out) (j : PullJ) : (pullPost nb outs j).live = j.live := by
+  unfold pullPost
+  simp only [ite_fail_live]
+  cases nb
+  · rfl
+  · simp only []; split
+    · rfl
+    · exact fail_live _ _
+
+theorem pullStepOld_live (j : PullJ) (ev : Ev) (outs : List Out) : (pullStepOld j ev outs).live = j.live := by
+  unfold pullStepOld
+  split; rfl
+  split; rfl
+  split; rfl
+  simp only []
+  rw [pullPost_live, foldl_live, foldl_live, pullPre_live]
+
+/-- the relation `R` does not read the list of connected pipes -/
+theorem R_live {s : State} {j : PullJ} (l : List Nat) (hR : R s j) : R s { j with live := l } := by
+  obtain ⟨a, b, c, d, f⟩ := hR
+  exact ⟨a, b, c, d, f⟩
+
+/-- simulation relation extended to the connected pipes -/
+structure R2 (s : State) (j : PullJ) : Prop where
+  r : R s j
+  live : ∀ p, p ∈ j.live ↔ openP s.pipes p
+
+theorem R2_init : R2 ({} : State) ({} : PullJ) := ⟨R_init, by intro p; simp [openP, getP]⟩
+
+theorem hm_fst (ps : List Pipe) (p : Nat) : (hm ps p).1 = p := rfl
+
+/-- in a state related to a model state every connected pipe is served -/
+theorem pullLive_ok {s : State} {j : PullJ} (hI : Inv s) (h : R2 s j) : pullLive j = j := by
+  unfold pullLive
+  split
+  · rfl
+  · have : j.live.find? (fun p => !pullServed j p) = none := by
+      rw [List.find?_eq_none]; intro p hp
+      obtain ⟨pp, hg, hopen⟩ := (h.live p).1 hp
+      have hw := (hI.wf p pp hg).1
+      simp only [Bool.not_eq_eq_eq_not, Bool.not_true, Bool.not_eq_false]
+      unfold pullServed
+      cases hh : pp.held with
+      | none =>
+        have : p ∈ j.armed := (h.r.armed p).2 ⟨pp, hg, hw.2 ⟨hopen, hh⟩⟩
+        simp [this]
+      | some gm =>
+        have hpl : p ∈ s.pl := (hI.plSpec p).2 ⟨pp, hg, hopen, by simp [hh]⟩
+        have : (j.held.any (·.1 == p)) = true := by
+          rw [h.r.held, List.any_eq_true]
+          exact ⟨hm s.pipes p, List.mem_map.2 ⟨p, hpl, rfl⟩, by simp [hm_fst]⟩
+        simp [this]
+    rw [this]
+
+theorem pullStep_run {j : PullJ} {ev : Ev} {outs : List Out} (herr : j.err = none)
+    (hne : notExecuted outs = false) (hns : isSend ev = false) :
+    pullStep j ev outs = pullLive (trackLive outs (pullStepOld j ev outs)) := by
+  unfold pullStep pullStepOld
+  simp only [herr, hne]
+  cases ev <;> first | (simp [isSend] at hns; done) | rfl
+
+theorem pullStep_skip {j : PullJ} {ev : Ev} {outs : List Out}
+    (h : notExecuted outs = true ∨ isSend ev = true) :
+    pullStep j ev outs = j ∧ pullStepOld j ev outs = j := by
+  unfold pullStep pullStepOld
+  split
+  · exact ⟨rfl, rfl⟩
+  · split
+    · exact ⟨rfl, rfl⟩
+    · rename_i hne
+      rcases h with h | h
+      · exact absurd h hne
+      · cases ev <;> first | (simp [isSend] at h; done) | exact ⟨rfl, rfl⟩
+
+/-- a step that the judge skips (refused line, or a send on the PULL socket) leaves the pipes alone -/
+theorem stepLive_skip {s : State} (ev : Ev)
+    (h : notExecuted (stepLive s ev).2 = true ∨ isSend ev = true) : (stepLive s ev).1.pipes = s.pipes := by
+  have no : ∀ {outs : List Out}, (∀ o ∈ outs, tame o = true) → isSend ev = false →
+      (notExecuted outs = true ∨ isSend ev = true) → False := by
+    intro outs ht hs h
+    rcases h with h | h
+    · rw [(tame_all ht).1] at h; exact Bool.noConfusion h
+    · rw [hs] at h; exact Bool.noConfusion h
+  cases ev <;> simp only [stepLive] at h ⊢
+  case pipeAdd peer =>
+    exfalso; unfold evPipeAdd at h; simp only [] at h
+    split at h <;> exact no (by simp [tame]) rfl h
+  case pipeDrop p =>
+    unfold evPipeDrop at h ⊢
+    split
+    · split
+      · rfl
+      · rename_i pp hget hopen
+        simp only [hget, hopen] at h
+        exact (no (tame_append (by simp [tame]) (closePipe_tame s p)) rfl h).elim
+    · rfl
+  case recvDone p r =>
+    unfold evRecvDone at h ⊢
+    split
+    · rename_i pp hget
+      simp only [hget] at h
+      split
+      · rfl
+      · rename_i hc
+        simp only [hc] at h
+        split
+        · exact (no (tame_append (by simp [tame]) (closePipe_tame s p)) rfl h).elim
+        · split
+          · rename_i hrq; simp only [hrq] at h; exact (no (by simp [tame]) rfl h).elim
+          · rename_i hrq; simp only [hrq] at h; exact (no (by simp [tame]) rfl h).elim
+    · rfl
+  case send c a m mode => unfold evSend; split <;> rfl
+  case recv c a mode =>
+    unfold evRecv at h ⊢
+    split
+    · rfl
+    · rename_i hb
+      simp only [hb] at h
+      split
+      · split <;> rfl
+      · rename_i p rest hpl
+        simp only [hpl] at h
+        split
+        · rename_i pp hget
+          simp only [hget] at h
+          split
+          · rename_i gm hh; simp only [hh] at h; exact (no (by simp [tame]) rfl h).elim
+          · rfl
+        · rfl
+  case cancel a => exact failParked_pipes s a _
+  case abort a rv => exact failParked_pipes s a _
+  case advance ms => exact failEach_pipes _ _ _
+  case close =>
+    exfalso; unfold evClose at h
+    refine no (tame_append ?_ (closeAll_tame _ _)) rfl h
+    intro o ho; simp at ho; obtain ⟨pk, _, rfl⟩ := ho; rfl
+
+theorem step_skip {s : State} (ev : Ev)
+    (h : notExecuted (step s ev).2 = true ∨ isSend ev = true) : (step s ev).1.pipes = s.pipes := by
+  have idle : ∀ ev, (stepIdle s ev).1.pipes = s.pipes := by
+    intro ev; cases ev <;> rfl
+  unfold step at h ⊢
+  split
+  · split
+    · rfl
+    · exact idle _
+  · rename_i hop
+    simp only [hop] at h
+    split
+    · exact idle _
+    · rename_i hcl
+      simp only [hcl] at h
+      exact stepLive_skip _ h
+
+theorem step_R {s : State} {j : PullJ} (hI : Inv s) (hR : R2 s j) (ev : Ev) (ha : isAbort0 ev = false) :
+    R2 (step s ev).1 (pullStep j ev (step s ev).2) := by
+  have hold := step_R_old hI hR.r ev ha
+  by_cases h : notExecuted (step s ev).2 = true ∨ isSend ev = true
+  · obtain ⟨e1, e2⟩ := pullStep_skip (j := j) h
+    rw [e1]; rw [e2] at hold
+    exact ⟨hold, by intro p; rw [step_skip ev h]; exact hR.live p⟩
+  · have hne : notExecuted (step s ev).2 = false := by
+      cases hx : notExecuted (step s ev).2 with
+      | false => rfl
+      | true => exact absurd (Or.inl hx) h
+    have hns : isSend ev = false := by
+      cases hx : isSend ev with
+      | false => rfl
+      | true => exact absurd (Or.inr hx) h
+    rw [pullStep_run hR.r.err hne hns]
+    have hI' := step_inv hI ev
+    have hlive := pullStepOld_live j ev (step s ev).2
+    have h2 : R2 (step s ev).1 (trackLive (step s ev).2 (pullStepOld j ev (step s ev).2)) := by
+      refine ⟨R_live _ hold, ?_⟩
+      intro p
+      rw [step_track hI ev p]
+      simp only [trackLive, List.mem_filter, List.mem_append, hlive, hR.live p]
+      simp
+    rw [pullLive_ok hI' h2]; exact h2
+
 /-- hypothesis on event lists: `nng_aio_abort(aio, 0)` is API misuse (it completes the
     receive "successfully" without a message) -/
 def NoAbort0 (evs : List Ev) : Prop := ∀ ev ∈ evs, isAbort0 ev = false
 
-theorem judge_from (evs : List Ev) : ∀ {s : State} {j : PullJ}, Inv s → R s j → NoAbort0 evs →
+theorem judge_from (evs : List Ev) : ∀ {s : State} {j : PullJ}, Inv s → R2 s j → NoAbort0 evs →
     ((traceOf s evs).foldl (fun j x => pullStep j x.1 x.2) j).err = none := by
   induction evs with
-  | nil => intro s j _ hR _; exact hR.err
+  | nil => intro s j _ hR _; exact hR.r.err
   | cons e es ih =>
     intro s j hI hR hn
     simp only [traceOf, List.foldl_cons]
@@ -721,6 +1156,6 @@ theorem judge_from (evs : List Ev) : ∀ {s : State} {j : PullJ}, Inv s → R s 
 
 /-- JUDGE (PULL): on every event sequence the model's trace satisfies the C06 trace predicate -/
 theorem pull_judge_ok (evs : List Ev) (hn : NoAbort0 evs) : pullJudge (traceOf {} evs) = none :=
-  judge_from evs inv_init R_init hn
+  judge_from evs inv_init R2_init hn
 
 end Nng.Pull
